@@ -60,8 +60,9 @@ static CanRec gen_can_frame(Rng &r, bool fd) {
         c.len = r.chance(0.75) ? fdlens[r.below(16)] : (uint8_t)r.below(65);
         c.flags = CANFD_FDF | (r.coin() ? CANFD_BRS : 0) | (r.chance(0.4) ? CANFD_ESI : 0);
     } else {
-        c.len = (uint8_t)r.below(9);
+        c.len = (uint8_t)(r.chance(0.25) ? 8 : r.below(9));
         if (r.chance(0.2)) c.can_id |= CAN_RTR_FLAG;
+        if (c.len == 8 && r.chance(0.2)) c.dlc8 = (uint8_t)r.range(9, 15);  // controller reports the raw DLC of an 8-byte frame
     }
     auto d = rnd_bytes(r, c.len, r.chance(0.7) ? 1 : -1);
     memcpy(c.data, d.data(), c.len);
@@ -75,9 +76,11 @@ static std::string can_line(uint64_t t, const CanRec &c) {
     std::string l = strf("can t=%llu id=0x%x fl=%s len=%u data=%s", (unsigned long long)t, c.can_id & CAN_EFF_MASK, fl.c_str(), c.len,
                          sim::hexstr(c.data, c.len).c_str());
     if (c.fd) l += strf(" ff=0x%02x", c.flags);
+    if (c.dlc8) l += strf(" dlc8=%u", c.dlc8);
     return l;
 }
-static uint64_t gap(Rng &r, uint64_t scale) {
+static uint64_t gap(Rng &r, uint64_t scale, bool very_long = false) {
+    if (very_long && r.chance(0.006)) return r.range(900, 3500) * 1000000ULL;  // the bus is silent for seconds
     if (r.chance(0.03)) return r.range(20, 200) * scale;  // an occasional long pause of the source
     switch (r.below(10)) {
     case 0: case 1: case 2: return 0;
@@ -105,6 +108,9 @@ static std::string gen_tunnel(uint64_t seed, uint64_t idx, bool thorough) {
     bool faults = (idx / 32) % 2;
     size_t hdrs = (udp ? 4 : 0) + (tscf ? wire::TSCF_HDR : wire::NTSCF_HDR);
     int maxcount = (int)((1500 - hdrs) / (fd ? 80 : 24));  // what the talker's 1500-byte buffer holds for maximum-size frames
+    // frames of one kind (the same message sent over and over): all maximum length, or all of one random length
+    int uniform_len = -1;
+    if (r.chance(0.2)) uniform_len = r.chance(0.6) ? (fd ? 64 : 8) : (int)r.below(fd ? 65 : 9);
     int count;
     switch (stratum) {
     case 0: count = 1; break;
@@ -112,9 +118,11 @@ static std::string gen_tunnel(uint64_t seed, uint64_t idx, bool thorough) {
     case 2: count = (int)r.range(4, std::min(12, maxcount)); break;
     default: count = r.chance(0.35) ? maxcount - (int)r.below(3) : (int)r.range(1, maxcount); break;
     }
-    // frames of one kind (the same message sent over and over): all maximum length, or all of one random length
-    int uniform_len = -1;
-    if (r.chance(0.2)) uniform_len = r.chance(0.6) ? (fd ? 64 : 8) : (int)r.below(fd ? 65 : 9);
+    if (stratum == 3 && uniform_len >= 0) {
+        // a bus that only carries short frames: more of them fit into one packet than the maximum-size bound says
+        int umax = std::min(255, (int)((1500 - hdrs) / (16 + (size_t)((uniform_len + 3) & ~3))));
+        if (umax > maxcount && r.chance(0.6)) count = r.chance(0.4) ? umax - (int)r.below(2) : (int)r.range(maxcount + 1, umax);
+    }
     int nframes = (int)(r.chance(0.3) ? r.range(1, 6) : r.range(1, thorough ? 300 : 120));
     if (r.chance(0.6)) nframes = std::max(nframes, count * (int)r.range(1, 4));
     if (count <= 2 && r.chance(0.2)) nframes = (int)r.range(258, 300) * count;  // 8-bit sequence counters wrap inside the run
@@ -128,15 +136,21 @@ static std::string gen_tunnel(uint64_t seed, uint64_t idx, bool thorough) {
     CanRec prev_frame;
     for (int i = 0; i < nframes; i++) {
         CanRec c = gen_can_frame(r, fd);
-        if (repeats && i > 0 && r.chance(0.5)) c = prev_frame;
-        else if (uniform_len >= 0) {
+        if (repeats && i > 0 && r.chance(0.5)) {
+            c = prev_frame;
+            if (r.chance(0.4)) {  // same identifier and length again, other flags and/or content
+                if (fd) c.flags = CANFD_FDF | (r.coin() ? CANFD_BRS : 0) | (r.coin() ? CANFD_ESI : 0);
+                else if (r.chance(0.3)) c.can_id ^= CAN_RTR_FLAG;
+                if (r.coin()) { auto d = rnd_bytes(r, c.len, 1); memcpy(c.data, d.data(), c.len); }
+            }
+        } else if (uniform_len >= 0) {
             c.len = (uint8_t)uniform_len;
             auto d = rnd_bytes(r, c.len, 1);
             memcpy(c.data, d.data(), c.len);
         }
         prev_frame = c;
         frames.push_back(can_line(t, c));
-        t += gap(r, scale);
+        t += gap(r, scale, true);
     }
     uint64_t maxdelay = 5000000;
     uint64_t tend = t + 60000000ULL + 2 * maxdelay + 65000000ULL;
@@ -499,8 +513,10 @@ static std::string gen_c18(uint64_t seed, uint64_t idx, bool thorough) {
     uint64_t tend = t3 + tail + drain + 5000000ULL;
     size_t qcap = (size_t[]){4, 16, 64, 256}[r.below(4)];
     o.line(strf("plan v1 engine=net prop=C18 seed=0x%llx idx=%llu", (unsigned long long)seed, (unsigned long long)idx));
-    o.line(strf("cfg scen=%s udp=%d fd=%d tscf=%d count=%d mtt=%d o0=%d ethpad=%d sched=%s lat=%llu:%llu cost=%llu:%llu qcap=%zu tend=%llu drain=%llu quiet=%llu rseed=0x%llx skew0=%lld skew1=%lld skew2=%lld",
-                scen.c_str(), udp, fd, tscf, count, mtt, (int)r.chance(0.35), (int)(!udp && r.chance(0.3)), sched_str(r).c_str(), (unsigned long long)r.range(1000, 50000),
+    // real CAN controllers queue a handful of frames for transmission; a burst finds the queue full (write fails with ENOBUFS)
+    int cantxq = (scen == "can" && !fault_free && r.chance(0.3)) ? (int[]){1, 4, 10}[r.below(3)] : 0;
+    o.line(strf("cfg scen=%s udp=%d fd=%d tscf=%d count=%d mtt=%d cantxq=%d o0=%d ethpad=%d sched=%s lat=%llu:%llu cost=%llu:%llu qcap=%zu tend=%llu drain=%llu quiet=%llu rseed=0x%llx skew0=%lld skew1=%lld skew2=%lld",
+                scen.c_str(), udp, fd, tscf, count, mtt, cantxq, (int)r.chance(0.35), (int)(!udp && r.chance(0.3)), sched_str(r).c_str(), (unsigned long long)r.range(1000, 50000),
                 (unsigned long long)r.range(50000, 1000000), (unsigned long long)r.range(50, 500), (unsigned long long)r.range(500, 20000), qcap,
                 (unsigned long long)tend, (unsigned long long)drain, (unsigned long long)t2, (unsigned long long)rseed, (long long)r.range(0, 20000000) - 10000000,
                 (long long)r.range(0, 20000000) - 10000000, (long long)r.range(0, 20000000) - 10000000));
@@ -561,6 +577,19 @@ static std::string gen_c18(uint64_t seed, uint64_t idx, bool thorough) {
             double a = (double)t1 / (double)t3, b2 = (double)t2 / (double)t3;
             first_fault_dg = (int)(a * talker_dgs);
             last_fault_dg = std::max(first_fault_dg + 1, (int)(b2 * talker_dgs) - 1);
+        }
+        if (en_synth && r.chance(0.15)) {
+            // the hostile datagram comes first: the legitimate talkers start late, so the listener has seen no valid traffic yet
+            uint64_t hs_end = r.range(t1, t2 - 1);
+            o.line(strf("stall t=0 node=0 dur=%llu", (unsigned long long)hs_end));
+            if (scen == "crfL") o.line(strf("stall t=0 node=1 dur=%llu", (unsigned long long)hs_end));
+            int n = (int)r.range(1, 3);
+            for (int i = 0; i < n; i++) {
+                uint64_t t = r.range(300000, std::max<uint64_t>(hs_end, 400000));
+                std::string note;
+                auto d = synth(r, scen, udp, tscf, fd, t_origin + t, note);
+                o.line(strf("inj t=%llu data=%s note=first-%s", (unsigned long long)t, sim::hexstr(d.data(), d.size()).c_str(), note.c_str()));
+            }
         }
         if (en_synth) {
             int n = (int)(r.chance(0.3) ? r.range(1, 3) : r.range(1, r.chance(thorough ? 0.4 : 0.2) ? (thorough ? 400 : 200) : 40));
